@@ -486,6 +486,16 @@ package graphql
 //@   at `shouldIncludeNode(sel.Directives, reqCtx.Variables)`#1 ghost inc = callres0
 //@   at `getOrCreateAndAppendField(&groupedFields, sel.Name, sel.Alias, sel.ObjectDefinition, func() CollectedField { return Coll...` requires inc && arg1 == sel.Name && arg2 == sel.Alias && arg3 == sel.ObjectDefinition
 //@   at `append(f.Selections, sel.SelectionSet...)` requires arg1 == sel.SelectionSet
+//@   ghost m2 = 0
+//@   ghost m3 = 0
+//@   at `collectFields(reqCtx, sel.SelectionSet, satisfies, visited)` ghost m2 = 0
+//@   at `append(f.Selections, childField.Selections...)`#1 requires arg1 == childField.Selections
+//@   at `append(f.Selections, childField.Selections...)`#1 ghost m2 = m2 + 1
+//@   loop 2: invariant m2 == idx2
+//@   at `collectFields(reqCtx, fragment.SelectionSet, satisfies, visited)` ghost m3 = 0
+//@   at `append(f.Selections, childField.Selections...)`#2 requires arg1 == childField.Selections
+//@   at `append(f.Selections, childField.Selections...)`#2 ghost m3 = m3 + 1
+//@   loop 3: invariant m3 == idx3
 //@   at `shouldIncludeNode(sel.Directives, reqCtx.Variables)`#2 ghost inc = callres0
 //@   at `deferrable(sel.Directives, reqCtx.Variables)`#1 requires inc
 //@   at `shouldIncludeNode(sel.Directives, reqCtx.Variables)`#3 ghost inc = callres0
